@@ -38,6 +38,7 @@ var tkPool = []string{
 	"a,b", "a,\"b,c\",d", "a,b\nc,d", "\"a\"\"b\",c", ",", ",,", "a;b", "\"a\nb\",c\r\nd",
 	"and", "Or", "not x", "a AND b", "true", "Null", "a like b", "x xor y",
 	"a /* c */ b", " /**/ ", " # c\n x", "a // c\n b", "/*a*/ /*b*/", " /*a*/\t/*b*/ ",
+	"{{'}}'x}}y", "{{a 😀 b}}c", "{{\"}}}\"}}", "a😀{{b}}", "{{#a}}'{{'{{/a}}", "{{a}}😀{{b}}",
 	"a + b*c", "f(x, y)", "a<=b<>c", "x IS NOT NULL", "a[1]", "1+-2", "a.b", "a-b", "a - -1", "1/2", "1/*c*/2", "a'b'c", "é'ж'😀", "😀", "a😀b", "\x00", "a\x00b", "ÿĀ",
 }
 
